@@ -113,7 +113,9 @@ Section Pinning.
                 | None => PROut
                 | Some (sp, pl) =>
                     if negb (sp =? sec) then PROut
-                    else if (sec <=? cs) && negb (sp <=? nlen pl) then PROut
+                    else if sec <=? cs
+                    then (* a child of at most one chunk is a data chunk: it must hold its span *)
+                         if sp <=? nlen pl then probe_refs rec dm rl dl span rest (i + 1) else PROut
                     else match rec pl sp with
                          | PROk => probe_refs rec dm rl dl span rest (i + 1)
                          | x => x
